@@ -233,6 +233,13 @@ def make_cond(kind, pre, A, Dy, Dx, via="Sigma"):
     else:
         raise ValueError(kind)
     if (pre + "S2") in A:
+        if (pre + "warm") in A:
+            # the object is USED before its covariance is replaced (anything cached by those calls must not survive)
+            import jax.numpy as jnp
+            Rw = A[pre + "u"].shape[0] if kind == "nncontrol" else A[pre + "S"].shape[0]
+            w.set_y(jnp.ones((Rw, Dy)))
+            w.condition_on_x(jnp.ones((1, Dx))) if kind != "nncontrol" else w.obj.condition_on_x_u(jnp.ones((1, Dx)), A[pre + "u"])
+            w.get_conditional_mu(jnp.ones((1, Dx)))
         w.obj.update_Sigma(A[pre + "S2"])
     return w
 
